@@ -401,6 +401,18 @@ def eff_1(ctx, rep, only=None, minimum=60):
         mf = ctx.prog.funcs.get(mkey)
         if mf is not None:
             memo_globals[mkey] = {m.group(1) for _n, why in eff.shared_writes(mf) for m in [_re.search(r'module global ([\w.]+)', why)] if m}
+            # ... and the module-level containers the memo function looks a key up in (its store may sit in a helper)
+            view = ctx.view(mf)
+            for x in ast.walk(view.node):
+                cand = None
+                if isinstance(x, ast.Subscript):
+                    cand = x.value
+                elif isinstance(x, ast.Compare) and len(x.ops) == 1 and isinstance(x.ops[0], (ast.In, ast.NotIn)):
+                    cand = x.comparators[0]
+                elif isinstance(x, ast.Call) and isinstance(x.func, ast.Attribute) and x.func.attr in ('get', 'setdefault'):
+                    cand = x.func.value
+                if isinstance(cand, ast.Name) and (mf.mod.rel, cand.id) in eff.shared_globals:
+                    memo_globals[mkey].add(cand.id)
     for key in sorted(reach):
         f = ctx.prog.funcs[key]
         writes = eff.shared_writes(f)
